@@ -645,7 +645,7 @@ pub fn def(tier: Tier) -> PropertyDef {
 	PropertyDef {
 		id: "C06",
 		level: "exploration",
-		rule: "36 indicators with signals (all but DetrendedPriceOscillator), generated valid configurations with every MA kind, valid candle streams <= 400 (thorough 1500) incl. flat/regime streams. At every step each signal slot is recomputed from the indicator's OWN returned values, the candle and the configuration by definitional detectors written for this check (crossing on the computed difference, newest-wins reversal, counters, latches, an independent float->strength conversion) and must equal the returned Action (Buy(0) == Sell(0)); proportional signals recomputed from floats admit the neighbouring strength exactly on a rounding boundary; Kaufman's filtered latch is tri-state (its deviation estimate is not returned). Where documentation and implementation disagree on the rule itself (PivotReversalStrategy, TrendStrengthIndex #2) the DOCUMENTED rule is the reference and the implemented rule is kept as a deviation model (known finding); anything else is a violation. Non-trivial = stream longer than the largest period with at least one signal fired; per slot the evidence lists whether Buy and Sell fired.",
+		rule: "36 indicators with signals (all but DetrendedPriceOscillator), generated valid configurations with every MA kind, valid candle streams <= 400 (thorough 1500) incl. flat/regime streams and tiny price scales, plus long one-sided trend streams with a zig-zag (<= 2500 bars, thorough 12000). At every step each signal slot is recomputed from the indicator's OWN returned values, the candle and the configuration by definitional detectors written for this check (crossing on the computed difference, newest-wins reversal, counters, latches, an independent float->strength conversion) and must equal the returned Action (Buy(0) == Sell(0)); proportional signals recomputed from floats admit the neighbouring strength exactly on a rounding boundary; Kaufman's filtered latch is tri-state (its deviation estimate is not returned). Where documentation and implementation disagree on the rule itself (PivotReversalStrategy, TrendStrengthIndex #2) the DOCUMENTED rule is the reference and the implemented rule is kept as a deviation model (known finding); anything else is a violation. Non-trivial = stream longer than the largest period with at least one signal fired; per slot the evidence lists whether Buy and Sell fired.",
 		assumptions: vec!["polarity/wording mismatches between prose and code (Keltner, TrendStrengthIndex #1, RelativeVigorIndex #2) follow the code, as fixed in DESIGN §6".into()],
 		exhaustive: false,
 		checks,
